@@ -18,6 +18,14 @@ package noise
 // frame, len(buf)) alone, which of the reader's code paths the Read takes and what it returns; afterwards it
 // classifies the path actually taken from qbuf/qseek and compares. Every (path -> next path) pair of the
 // reader's automaton must have occurred (else the run is reported as not exhaustive - never as a violation).
+//
+// Zero-length buffers belong to "every sequence of read-buffer sizes": a number of read policies interleave
+// Reads with len(buf) == 0 (memconn.Policy.Zeros) so that such a Read meets each state of the reader - no
+// queue (the pending frame is buffered and queued as a whole, path Bp0), a remainder queued (nothing moves,
+// Qp0), an empty remainder queued (released, Qz0) - and is followed by each kind of Read. The fidelity oracle
+// is unchanged (a zero-length Read returns 0 bytes; what the later Reads return must still be the prefix);
+// the path automaton has the three paths and their pairs added. Zero-length writes are part of the write
+// splits (at the start, at the end, between two non-empty writes; they produce no frame).
 
 import (
 	"context"
@@ -133,23 +141,49 @@ func c02Handshake(ti, tr *Transport, short []int, psk bool) (*c02Pair, error) {
 // ---------- the reader's code paths ----------
 
 const (
-	c02D  = iota // no queue; len(buf) >= encrypted length: read and decrypt in the caller's buffer
-	c02Bp        // no queue; len(buf) < plaintext length: pooled buffer, part copied, remainder queued
-	c02Bf        // no queue; plaintext <= len(buf) < encrypted length: pooled buffer, all copied, EMPTY remainder stays queued
-	c02Qp        // queue drained partly
-	c02Ql        // queue drained to its end (>0 bytes) and released
-	c02Qz        // empty remainder released, Read returns (0, nil)
-	c02E         // Read returned an error
+	c02D   = iota // no queue; len(buf) >= encrypted length: read and decrypt in the caller's buffer
+	c02Bp         // no queue; len(buf) < plaintext length: pooled buffer, part copied, remainder queued
+	c02Bf         // no queue; plaintext <= len(buf) < encrypted length: pooled buffer, all copied, EMPTY remainder stays queued
+	c02Qp         // queue drained partly
+	c02Ql         // queue drained to its end (>0 bytes) and released
+	c02Qz         // empty remainder released, Read returns (0, nil)
+	c02Bp0        // ZERO-LENGTH buffer, no queue: the pending frame is buffered and queued as a whole, (0, nil)
+	c02Qp0        // ZERO-LENGTH buffer, remainder queued: nothing moves, (0, nil)
+	c02Qz0        // ZERO-LENGTH buffer, empty remainder queued: released, (0, nil)
+	c02E          // Read returned an error
 	c02None
 )
 
-var c02PathName = [...]string{"D", "Bp", "Bf", "Qp", "Ql", "Qz", "E", "?"}
+var c02PathName = [...]string{"D", "Bp", "Bf", "Qp", "Ql", "Qz", "Bp0", "Qp0", "Qz0", "E", "?"}
+
+// c02ZeroPath: the name of a path when it is taken by a Read with an empty buffer (only Bp, Qp and Qz can be).
+func c02ZeroPath(path, r int) int {
+	if r != 0 {
+		return path
+	}
+	switch path {
+	case c02Bp:
+		return c02Bp0
+	case c02Qp:
+		return c02Qp0
+	case c02Qz:
+		return c02Qz0
+	}
+	return path
+}
 
 // every transition of the reader's path automaton
 var c02PathPairs = [][2]int{
 	{c02D, c02D}, {c02D, c02Bp}, {c02D, c02Bf}, {c02Bp, c02Qp}, {c02Bp, c02Ql}, {c02Bf, c02Qz}, {c02Qp, c02Qp}, {c02Qp, c02Ql},
 	{c02Ql, c02D}, {c02Ql, c02Bp}, {c02Ql, c02Bf}, {c02Qz, c02D}, {c02Qz, c02Bp}, {c02Qz, c02Bf},
+	// zero-length reads: in each of the three states, after each kind of predecessor, before each kind of successor
+	{c02D, c02Bp0}, {c02Ql, c02Bp0}, {c02Qz0, c02Bp0}, {c02Bp, c02Qp0}, {c02Qp, c02Qp0}, {c02Bp0, c02Qp0}, {c02Qp0, c02Qp0}, {c02Bf, c02Qz0},
+	{c02Bp0, c02Qp}, {c02Bp0, c02Ql}, {c02Qp0, c02Qp}, {c02Qp0, c02Ql}, {c02Qz0, c02D}, {c02Qz0, c02Bp}, {c02Qz0, c02Bf},
 }
+
+// pairs that need three or more frames in one transfer under a particular policy: reported, not required of
+// every worker
+var c02PathPairsOptional = [][2]int{{c02Qz, c02Bp0}}
 
 // c02Frames: plaintext sizes of the frames Write produces for the given write sizes.
 func c02Frames(writes []int) []int {
@@ -234,6 +268,7 @@ func (k *c02Tracker) before(r int) {
 			k.predPath, k.predN = c02Bp, r
 		}
 	}
+	k.predPath = c02ZeroPath(k.predPath, r)
 }
 
 // after classifies the path actually taken from the queue state before and after the Read.
@@ -264,11 +299,12 @@ func (k *c02Tracker) after(r, n int, err error) {
 			path = c02Bp
 		}
 	}
+	path = c02ZeroPath(path, r)
 	if k.predPath != c02None && (path != k.predPath || n != k.predN) && len(k.mismatch) < 4 {
 		k.mismatch = append(k.mismatch, fmt.Sprintf("Read(len %d) with queue=%d frame#%d: computed %s n=%d, observed %s n=%d", r, k.preQ, k.fi, c02PathName[k.predPath], k.predN, c02PathName[path], n))
 	}
 	k.note(path)
-	if k.chatter && path == c02Bp && k.fi-1 < len(k.frames) {
+	if k.chatter && (path == c02Bp || path == c02Bp0) && k.fi-1 < len(k.frames) {
 		if _, err := k.s.Write(c02Junk[:k.frames[k.fi-1]]); err != nil && k.chatterErr == nil {
 			k.chatterErr = err
 		}
@@ -366,12 +402,34 @@ var c02LengthsThorough = []int{3, 4061, 4062, 4063, 4093, 4094, 4095, 4096, 4097
 var c02ShortPatterns = [][]int{{0}, {1}, {2}, {3}, {7}, {4096}}
 var c02ShortPatternsThorough = [][]int{{1, 7, 3}, {4096, 1}, {2, 65535}, {4095}, {4097}}
 
-func c02Policies(L int, thorough bool) []memconn.Policy {
+func c02Policies(L int, thorough, zeros bool) []memconn.Policy {
 	fixed := []int{1, 2, 15, 16, 17, MaxPlaintextLength, MaxTransportMsgLength, 65536, 65537, 70000, L + 1}
 	if thorough {
 		fixed = append(fixed, 3, 4096, MaxPlaintextLength-1, MaxPlaintextLength+1, MaxTransportMsgLength-1, 2*MaxPlaintextLength, L+16, L+17)
 	}
-	return memconn.Policies(fixed, []int{-1, 0, 1, 15, 16, 17})
+	pols := memconn.Policies(fixed, []int{-1, 0, 1, 15, 16, 17})
+	if !zeros {
+		return pols
+	}
+	// Zero-length reads interleaved (pattern = number of empty-buffer Reads before each non-empty Read, cyclic).
+	// The order matters on a session: r=pending and r=pending+15 leave an EMPTY remainder queued when their
+	// transfer ends, so the policy that follows starts with a zero-length Read in that state; the others start
+	// with no queue, and the zero-length Reads in between meet a partly drained queue.
+	pols = append(pols,
+		memconn.Rel(0).WithZeros(0, 1),
+		memconn.Fixed(17).WithZeros(1, 2),
+		memconn.Rel(-1).WithZeros(2, 0),
+		memconn.Rel(15).WithZeros(0, 2),
+		memconn.Rel(16).WithZeros(1))
+	if thorough {
+		pols = append(pols,
+			memconn.Fixed(MaxPlaintextLength).WithZeros(0, 1),
+			memconn.Fixed(1).WithZeros(1),
+			memconn.Rel(1).WithZeros(1, 0, 2),
+			memconn.Fixed(MaxTransportMsgLength).WithZeros(2),
+			memconn.Rel(17).WithZeros(0, 0, 1))
+	}
+	return pols
 }
 
 // c02Payload: a different payload for every transfer of a session (and per direction), so that bytes of an
@@ -418,17 +476,18 @@ func TestVerifC02Noise(t *testing.T) {
 		shorts = append(append([][]int{}, shorts...), c02ShortPatternsThorough...)
 	}
 	r.Bounds["L"] = lengths
-	r.Bounds["write_splits"] = "whole, 1+rest, rest+1, 65519+rest, 65520+rest, thirds, 0+L+0, 1-byte writes for L<=4096"
+	r.Bounds["write_splits"] = "whole, 1+rest, rest+1, 65519+rest, 65520+rest, thirds, 0+L+0, thirds with zero-length writes between them [a,0,a,0,0,rest], 1-byte writes for L<=4096"
+	r.Bounds["zero_length_reads"] = "read policies named ',zero-length reads[z0,z1,..]' issue z(i mod n) Reads with len(buf)=0 before their i-th non-empty Read"
 	r.Bounds["short_read_patterns(cyclic, 0=unlimited)"] = shorts
 	r.Bounds["directions"] = "initiator->responder, responder->initiator"
 	r.Bounds["read_after"] = "each write | last write"
 	r.Bounds["duplex"] = "additionally (noise, unlimited reads, read after last write): the reading session writes a same-size frame back whenever a remainder has just been queued"
 	r.Bounds["stacks"] = "noise: full grid; psk>noise: L in {0,17,65520,131039}, short reads {unlimited,1,7}"
 	if !thorough {
-		r.Bounds["quick_reduction"] = "second direction and read-after-each-write only with short reads {unlimited,1}"
+		r.Bounds["quick_reduction"] = "second direction and read-after-each-write only with short reads {unlimited,1}; the read policies with zero-length reads only with short reads {unlimited,1,7} (second direction, read-after-each-write, duplex: {unlimited}); the split with zero-length writes in between (they never reach the wire) only with unlimited reads underneath"
 	}
 	var pn []string
-	for _, p := range c02Policies(-1, thorough) {
+	for _, p := range c02Policies(-1, thorough, true) {
 		pn = append(pn, p.Name)
 	}
 	pn = append(pn, "r=L+1")
@@ -461,6 +520,9 @@ func TestVerifC02Noise(t *testing.T) {
 							if !thorough && (dir == "r2i" || each) && !(short[0] == 0 || short[0] == 1) {
 								continue
 							}
+							if !thorough && sp.Name == "thirds+0s" && short[0] != 0 {
+								continue
+							}
 							for _, chatter := range []bool{false, true} {
 								if chatter && !(stack == "noise" && !each && len(short) == 1 && short[0] == 0 && (thorough || dir == "i2r")) {
 									continue
@@ -470,7 +532,8 @@ func TestVerifC02Noise(t *testing.T) {
 								}
 								// one fresh session per (stack, L, split, short reads, direction, read-after mode);
 								// the read policies follow each other on it, each with its own payload
-								pols := c02Policies(L, thorough)
+								zeros := thorough || short[0] == 0 || (dir == "i2r" && !each && (short[0] == 1 || short[0] == 7))
+								pols := c02Policies(L, thorough, zeros)
 								items := make([]memconn.Item, len(pols))
 								cases := make([]c02Case, len(pols))
 								var all []int
@@ -526,6 +589,10 @@ done:
 		if pairs[pp[0]][pp[1]] == 0 {
 			missing = append(missing, name)
 		}
+	}
+	for _, pp := range c02PathPairsOptional {
+		known[pp] = true
+		r.Outcome(fmt.Sprintf("path-pair %s>%s (not required of every worker) taken=%v", c02PathName[pp[0]], c02PathName[pp[1]], pairs[pp[0]][pp[1]] > 0))
 	}
 	for x := 0; x < c02E; x++ {
 		for y := 0; y < c02E; y++ {
